@@ -1430,14 +1430,51 @@ Lemma impl_bind_generic special use_code sv cv F es :
   else impl_generic special (sig_view (sparams_of F)) (sig_actions (sparams_of F)) sv cv F es.
 Proof. destruct use_code; reflexivity. Qed.
 
+(* ---- entries level: whatever entries resolve_params hands to wrapper_render ---- *)
+Lemma bind_equiv_entries : forall special use_code sv cv F es,
+  wfb special F = true ->
+  res_equiv (impl_bind_entries special use_code sv cv F es) (py_bind_entries sv cv F es).
+Proof.
+  intros special use_code sv cv F es WF. rewrite impl_bind_generic.
+  destruct use_code.
+  - apply (generic_equiv special F _ _ (code_view_ok special F WF) WF sv cv).
+  - apply (generic_equiv special F _ _ (sig_view_ok special F WF) WF sv cv).
+Qed.
+
+Lemma error_class_entries : forall special use_code sv cv F es e,
+  wfb special F = true ->
+  impl_bind_entries special use_code sv cv F es = Err e ->
+  (e = TypeError \/ e = SyntaxError) /\ (e = SyntaxError -> pos_after_kw es false = true).
+Proof.
+  intros special use_code sv cv F es e WF H. rewrite impl_bind_generic in H.
+  assert (arg_error e = true /\ (e = SyntaxError -> pos_after_kw es false = true)) as [A B].
+  { destruct use_code.
+    - apply (generic_error_class special F _ _ (code_view_ok special F WF) WF sv cv _ e H).
+    - apply (generic_error_class special F _ _ (sig_view_ok special F WF) WF sv cv _ e H). }
+  split; [|exact B]. destruct e; simpl in A; auto; discriminate.
+Qed.
+
+(* ---- keys of spread mappings ---- *)
+Lemma py_bind_all_str sv cv F call :
+  keys_all_str call = true -> py_bind sv cv F call = py_bind_entries sv cv F (resolve call).
+Proof.
+  intro H. unfold py_bind, py_bind_entries. rewrite H. destruct (pos_after_kw (resolve call) false); reflexivity.
+Qed.
+
+Lemma py_bind_not_str sv cv F call :
+  keys_all_str call = false -> exists e, py_bind sv cv F call = Err e /\ arg_error e = true.
+Proof.
+  intro H. unfold py_bind. rewrite H. destruct (pos_after_kw (resolve call) false); eauto.
+Qed.
+
+(* ---- call level ---- *)
 Lemma bind_equiv_lemma : forall special use_code sv cv F call,
   wfb special F = true ->
   res_equiv (impl_bind special use_code sv cv F call) (py_bind sv cv F call).
 Proof.
-  intros special use_code sv cv F call WF. unfold impl_bind, py_bind. rewrite impl_bind_generic.
-  destruct use_code.
-  - apply (generic_equiv special F _ _ (code_view_ok special F WF) WF sv cv).
-  - apply (generic_equiv special F _ _ (sig_view_ok special F WF) WF sv cv).
+  intros special use_code sv cv F call WF. unfold impl_bind, resolve_params. destruct (keys_all_str call) eqn:R.
+  - rewrite (py_bind_all_str sv cv F call R). apply bind_equiv_entries. exact WF.
+  - destruct (py_bind_not_str sv cv F call R) as [e [-> He]]. simpl. auto.
 Qed.
 
 Lemma fast_fallback_lemma : forall special sv cv F call,
@@ -1454,12 +1491,10 @@ Lemma error_class_lemma : forall special use_code sv cv F call e,
   impl_bind special use_code sv cv F call = Err e ->
   (e = TypeError \/ e = SyntaxError) /\ (e = SyntaxError -> pos_after_kw (resolve call) false = true).
 Proof.
-  intros special use_code sv cv F call e WF H. unfold impl_bind in H. rewrite impl_bind_generic in H.
-  assert (arg_error e = true /\ (e = SyntaxError -> pos_after_kw (resolve call) false = true)) as [A B].
-  { destruct use_code.
-    - apply (generic_error_class special F _ _ (code_view_ok special F WF) WF sv cv _ e H).
-    - apply (generic_error_class special F _ _ (sig_view_ok special F WF) WF sv cv _ e H). }
-  split; [|exact B]. destruct e; simpl in A; auto; discriminate.
+  intros special use_code sv cv F call e WF H. unfold impl_bind, resolve_params in H.
+  destruct (keys_all_str call).
+  - apply (error_class_entries special use_code sv cv F _ e WF H).
+  - inversion H. split; [auto | discriminate].
 Qed.
 
 (* the tag accepts exactly the calls Python accepts *)
@@ -1476,15 +1511,16 @@ Qed.
 
 (* whenever wrapper_render gets as far as  orig_render(self, context, *args, **kwargs),  that call binds what the
    equivalent Python call binds - or Python's own binding refuses it with TypeError and so does the equivalent call *)
-Lemma never_other_bindings_lemma : forall special use_code sv cv F call reg inv args kwargs,
+Lemma never_other_bindings_lemma : forall special use_code sv cv F call es reg inv args kwargs,
   wfb special F = true ->
-  wsplit special (resolve call) false [] = Ok (reg, inv) ->
+  resolve_params call = Ok es ->
+  wsplit special es false [] = Ok (reg, inv) ->
   validate_params use_code F reg inv = Ok (args, kwargs) ->
   res_equiv (py_call F (sv :: cv :: args) kwargs) (py_bind sv cv F call).
 Proof.
-  intros special use_code sv cv F call reg inv args kwargs WF Hs Hv.
+  intros special use_code sv cv F call es reg inv args kwargs WF Hr Hs Hv.
   pose proof (bind_equiv_lemma special use_code sv cv F call WF) as E.
-  unfold impl_bind, impl_bind_entries in E. rewrite Hs, Hv in E. exact E.
+  unfold impl_bind, impl_bind_entries in E. rewrite Hr, Hs, Hv in E. exact E.
 Qed.
 
 Lemma nodup_lookup (l : list (str * N)) k v : has_dup_keys l = false -> In (k, v) l -> klookup k l = Some v.
@@ -1504,15 +1540,15 @@ Proof.
 Qed.
 
 (* a key that is not an identifier reaches render() only inside **kwargs *)
-Lemma special_only_varkw_lemma : forall special use_code sv cv F call k v b,
+Lemma special_only_varkw_entries : forall special use_code sv cv F es k v b,
   wfb special F = true ->
-  In (Some k, v) (resolve call) -> special k = true ->
-  impl_bind special use_code sv cv F call = Ok b ->
+  In (Some k, v) es -> special k = true ->
+  impl_bind_entries special use_code sv cv F es = Ok b ->
   s_vk F <> None /\ ~ In k (all_names F) /\ exists d, b_kw b = Some d /\ klookup k d = Some v.
 Proof.
-  intros special use_code sv cv F call k v b WF Hin Hsp H.
-  pose proof (bind_equiv_lemma special use_code sv cv F call WF) as E. rewrite H in E.
-  unfold py_bind, py_bind_entries in E. set (es := resolve call) in *.
+  intros special use_code sv cv F es k v b WF Hin Hsp H.
+  pose proof (bind_equiv_entries special use_code sv cv F es WF) as E. rewrite H in E.
+  unfold py_bind_entries in E.
   destruct (pos_after_kw es false); [contradiction|].
   destruct (has_dup_keys (entries_kw es)) eqn:Dk; [contradiction|].
   assert (klookup k (entries_kw es) = Some v) as Hl by (apply nodup_lookup; [exact Dk | apply entries_kw_In; exact Hin]).
@@ -1532,6 +1568,17 @@ Proof.
   destruct (bind_pos _ _ _ _); [|contradiction]. destruct (bind_ko _ _); [|contradiction].
   destruct E as [_ [_ E3]]. simpl in E3. split; [discriminate|]. split; [exact Hnot|].
   destruct (b_kw b) as [d|]; [|contradiction]. exists d. split; [reflexivity|]. rewrite (E3 k). exact Hx.
+Qed.
+
+Lemma special_only_varkw_lemma : forall special use_code sv cv F call k v b,
+  wfb special F = true ->
+  In (Some k, v) (resolve call) -> special k = true ->
+  impl_bind special use_code sv cv F call = Ok b ->
+  s_vk F <> None /\ ~ In k (all_names F) /\ exists d, b_kw b = Some d /\ klookup k d = Some v.
+Proof.
+  intros special use_code sv cv F call k v b WF Hin Hsp H. unfold impl_bind, resolve_params in H.
+  destruct (keys_all_str call); [|discriminate].
+  exact (special_only_varkw_entries special use_code sv cv F _ k v b WF Hin Hsp H).
 Qed.
 
 (* the S-model binds every parameter exactly once, in signature order *)
